@@ -377,6 +377,17 @@ fn gen_f64(rng: &mut Rng) -> f64 {
 	if rng.chance(1, 8) {
 		return gen_sparse_f64(rng);
 	}
+	if rng.chance(1, 8) {
+		// few significant digits, any decimal exponent (the doubles people write by hand)
+		let digits = rng.range(1, 10);
+		let mut m = String::new();
+		for i in 0..digits {
+			m.push(char::from(b'0' + if i == 0 { 1 + rng.below(9) } else { rng.below(10) } as u8));
+		}
+		let e = rng.below(121) as i32 - 60;
+		let x: f64 = format!("{}{}e{}", if rng.chance(1, 3) { "-" } else { "" }, m, e).parse().unwrap_or(1.0);
+		return x;
+	}
 	match rng.below(10) {
 		0 => 0.0,
 		1 => -0.0,
@@ -1047,7 +1058,7 @@ fn gen_c17_number(rng: &mut Rng) -> String {
 		};
 	}
 	match rng.below(12) {
-		0 => ["0", "-0", "1", "-1", "9223372036854775807", "-9223372036854775808", "9223372036854775808", "18446744073709551615"][rng.below(8)].to_string(),
+		0 => ["0", "-0", "1", "-1", "9223372036854775807", "-9223372036854775808", "9223372036854775808", "18446744073709551615", "-1.2e19", "-12000000000000000000.0", "-9223372036854777856.0", "1.2e19", "18446744073709551616.0", "-9.3e18", "1e10", "-1e10", "12345678901.0", "4.64871e42"][rng.below(18)].to_string(),
 		1 => ["18446744073709551616", "-9223372036854775809", "123456789012345678901234567890", "1e5", "1E0", "0e0", "-0e0", "12e+2"][rng.below(8)].to_string(),
 		2 => ["-0.0", "0.0", "1.0", "1.50", "0.1e1", "100.0e-2", "-0.0e0", "1.5E+3", "1.5e400", "-6.02E1000", "1.7976931348623159e308", "1.0e309", "0.1e-400", "602214076000000.0e10"][rng.below(14)].to_string(),
 		3 => (rng.next_u64() >> rng.below(64)).to_string(),
@@ -1260,6 +1271,25 @@ pub fn run_c17(cfg: &Config) -> i32 {
 		rep
 	});
 	total.merge(rep);
+	// objects with n distinct keys in which one of them (each position in turn) occurs again at the end
+	{
+		let sizes: Vec<usize> = if cfg.san { vec![3, 33] } else { vec![1, 2, 15, 16, 17, 31, 32, 33, 34, 63, 64, 65, 66] };
+		let rep = parallel(cfg.threads, sizes.len(), |j| {
+			let mut rep = Report::new();
+			let n = sizes[j];
+			for p in 0..n {
+				let mut e: Vec<(String, RVal)> = (0..n).map(|x| (format!("k{}", x), RVal::Num(x.to_string()))).collect();
+				e.push((format!("k{}", p), RVal::Str("again".into())));
+				if p % 2 == 0 {
+					e.push(("tail".into(), RVal::Null));
+				}
+				rep.distinct_by_construction(1);
+				c17_one(&mut rep, &RVal::Obj(e));
+			}
+			rep
+		});
+		total.merge(rep);
+	}
 	// containers beyond any block / pre-allocation size of the (de)serialization paths
 	if !cfg.san {
 		let sizes = [11_915usize, 11_916, 20_000, 65_536, 65_537, 140_000];
@@ -1637,6 +1667,53 @@ pub fn run_c18(cfg: &Config) -> i32 {
 		rep
 	});
 	total.merge(rep);
+
+	// arrays (and objects) whose neighbouring members are number literals related to each other: a long
+	// literal next to each of its prefixes that is itself a number, in both orders, and repeated
+	{
+		let rep = parallel(cfg.threads, if cfg.san { 2 } else { 16 }, |i| {
+			let mut rep = Report::new();
+			let mut rng = Rng::new(seed).fork(0xc18a + i as u64);
+			let mut rd = Reader::new();
+			for round in 0..(if cfg.san { 2 } else { 12 }) {
+				let long: String = match (i + round) % 6 {
+					0 => {
+						let mut s = String::new();
+						for j in 0..rng.range(17, 30) {
+							s.push(char::from(b'0' + if j == 0 { 1 + rng.below(9) } else { rng.below(10) } as u8));
+						}
+						s
+					}
+					1 => format!("0.{}", (0..rng.range(15, 30)).map(|_| char::from(b'0' + rng.below(10) as u8)).collect::<String>()),
+					2 => format!("-{}.{}", 1 + rng.below(9), (0..rng.range(15, 24)).map(|_| char::from(b'0' + rng.below(10) as u8)).collect::<String>()),
+					3 => format!("{}e{}", (0..rng.range(14, 20)).map(|j| char::from(b'0' + if j == 0 { 1 } else { rng.below(10) } as u8)).collect::<String>(), rng.range(10, 99)),
+					4 => format!("1{}", "0".repeat(rng.range(16, 24))),
+					_ => format!("{}.{}E-{}", 1 + rng.below(9), (0..rng.range(8, 14)).map(|_| char::from(b'0' + rng.below(10) as u8)).collect::<String>(), rng.range(100, 300)),
+				};
+				let prefixes: Vec<String> = (1..long.len()).map(|l| long[..l].to_string()).filter(|p| matches!(rd.read(p.as_bytes(), true).root, Some(RVal::Num(_)))).collect();
+				let num = |s: &str| RVal::Num(s.to_string());
+				let mut docs: Vec<RVal> = Vec::new();
+				for p in &prefixes {
+					docs.push(RVal::Arr(vec![num(&long), num(p)]));
+					docs.push(RVal::Arr(vec![num(p), num(&long), num(p)]));
+					docs.push(RVal::Obj(vec![("a".into(), num(&long)), ("b".into(), num(p))]));
+				}
+				docs.push(RVal::Arr(std::iter::once(num(&long)).chain(prefixes.iter().rev().map(|p| num(p))).collect()));
+				docs.push(RVal::Arr(prefixes.iter().map(|p| num(p)).chain(std::iter::once(num(&long))).chain([num(&long), num(&prefixes[prefixes.len() / 2]), num(&long)]).collect()));
+				for r in docs {
+					rep.distinct_hash(fnv(doc_of(&r).as_bytes()) ^ 2);
+					c18_from_js(&mut rep, &r);
+					if let Ok(sj) = serde_json::from_str::<serde_json::Value>(&doc_of(&r)) {
+						c18_from_sj(&mut rep, &sj);
+					}
+					rep.count("family:arrays-of-related-number-literals", 1);
+				}
+			}
+			rep
+		});
+		total.merge(rep);
+	}
+
 	conclude(
 		cfg,
 		EvidenceMeta {
